@@ -101,6 +101,24 @@ def run(ctx):
     corr_violations = ctx.violations[n_before_corr:]
     ctx.log("correspondence: %d cases, %d disagreements, %d real-code anomalies" % (len(cases), bad, len(special)))
 
+    # ---------------------------------------------------------------- 3b. guard of the ryu model theorem
+    # `ryu_model_digits_roundtrip_partial` holds for floats with `ryuFound`; evaluate it for every
+    # finite float that went through the writer correspondence
+    ryu_n = ryu_false = 0
+    if ctx.model_bin:
+        fl = sorted({c[1].split()[-1] for c in cases if re.match(r"^c07\.write c D[0-9a-f]{16}$", c[1])})
+        fl = [f for f in fl if (int(f[1:], 16) >> 52) & 0x7ff != 0x7ff and int(f[1:], 16) & ((1 << 63) - 1) != 0]   # finite, non-zero
+        ans = ctx.model(["c07.ryufound " + f for f in fl])
+        ryu_n = len(fl)
+        for f, a in zip(fl, ans):
+            if a != "1":
+                ryu_false += 1
+                if ryu_false <= 5:
+                    ctx.violation("c07-ryufound:" + f, "the digit search of the float printer model finds no round-tripping "
+                                  "decimal within 18 digits (guard of ryu_model_digits_roundtrip_partial)",
+                                  {"float_vx": f, "answer": a}, kind="no-failing-input-found", broken=["ryu_model_digits_roundtrip_partial"])
+        ctx.log("ryu model: digit search succeeds (ryuFound) for %d of %d floats" % (ryu_n - ryu_false, ryu_n))
+
     # ---------------------------------------------------------------- 4a. in-process oracle
     orc = ctx.harness(["c07", "oracle"])
     on = obad = 0
@@ -151,6 +169,7 @@ def run(ctx):
         "traces_validated_against_impl": len(cases),
         "case_kinds": kinds,
         "oracle_checks": on, "cli_comparisons": cli_n, "python_texts": py_n,
+        "ryu_found_checked": ryu_n, "ryu_found_false": ryu_false,
         "disagreements": bad,
         "tables_regenerated": True,
         "exhaustive": False,
@@ -160,8 +179,8 @@ def run(ctx):
     ctx.assumptions += [
         "model C07/Write.lean, C07/Read.lean written by hand from jaq-json/src/{write,read,num}.rs and hifijson 0.5.0 (token.rs seq/expect, str.rs str_fold, escape.rs, num.rs num_part); tied by this run's correspondence",
         "per-byte escape tables and the reader's single-character escape table are regenerated from the real code on every run; that the string writer is the concatenation of the per-byte outputs is corresponded (all strings up to length 3), not proved about Rust",
-        "ryu::Buffer::format_finite is a parameter of the theorems with the contract `RyuOk` (output lexes completely as a non-integer number literal; str::parse::<f64> of it gives back the float); the contract is tested on every float of this run and an executable model of ryu is compared bit for bit",
-        "theorem parse_print_val assumes the value's object keys stay pairwise different after the round trip (`KeysDistinct`), which holds for every value whose keys are distinct and float-free, and is exercised by the oracle for float keys",
+        "ryu::Buffer::format_finite is a parameter of the theorems with the contract `RyuOk`; for the executable model `ryuModel` the grammar half (`RyuLit`) is a theorem for every float and the value half is proved for the decimal digits of every float with `ryuFound` (evaluated on every float of this run); that the real ryu equals the model is compared byte for byte on this run's floats, and str::parse::<f64>(ryu f) = f is tested on the real code",
+        "round 2: the key hypothesis of parse_print_val is discharged from the IndexMap invariant of v itself (`KeysOk v`, `WfInts v`) without sort_keys, and from `SortDom v` (keys object-free and pairwise strictly ordered; holds on C08's NaN-free guarded domain) with sort_keys; keys that contain objects under sort_keys remain covered by the oracle only",
         "ANSI styles (coloured output) are not part of the model: coloured output is not meant to be read back",
         "recursion depth of the real reader/writer (stack) is not modelled (C05)",
     ]
